@@ -21,10 +21,11 @@ EXPLANATION = (
     "test of its switch; application efficiency may additionally appear as a factor of the irrigation depth. C20.b "
     "(neutral values): polynomial normal forms with the parameter fixed at its neutral value show mulch factor 0 or "
     "mulch cover 0 give EsPotMul == EsPot and Irr = 0 removes the efficiency term from infiltration; interprocedural "
-    "constant propagation shows depth = 0 (method 5) and MaxIrr = 0 give Irr == 0. C20.c (stated default): the block "
+    "constant propagation shows depth = 0 (method 5), MaxIrr = 0 and - with the seasonal counter >= 0, A-19 - a seasonal maximum of 0 "
+    "give Irr == 0 for every strategy that applies water. C20.c (stated default): the block "
     "executed only when the harvest date is unset passes no user-owned object to a callee that writes it - the default "
     "harvest date is derived without changing what a run with the date stated explicitly would see. NOT decided: empty "
-    "schedule and seasonal maximum 0 (need the numeric invariant IrrCum >= 0), numerical identity of the runs.")
+    "schedule, numerical identity of the runs.")
 
 # parameter attribute -> (kind of switch, switch attribute / value)
 FEATURES = {
@@ -253,9 +254,15 @@ def rule_b(chk, prog):
             chk.violation("C20.b", f"{inf.module}:{inf.qualname}", construct, "the application efficiency has an effect although nothing is applied", loc=inf.loc(n.ast))
     # depth 0 / MaxIrr 0 -> Irr == 0 (constant propagation)
     cfgs = [{"IrrMngt.irrigation_method": 5, "IrrMngt.depth": 0}] + [{"IrrMngt.irrigation_method": m, "IrrMngt.MaxIrr": 0} for m in (1, 2, 3, 5)]
+    # seasonal maximum 0 behaves as rainfed: with the seasonal counter >= 0 (A-19: it starts at 0 and only grows by applied depths >= 0,
+    # C04.b / C06.c) the cap leaves nothing to apply on either branch of its test
+    from ..absint import Sgn
+    step_state = prog.func(STEP_FN).params[0]
+    cfgs += [{"IrrMngt.irrigation_method": m, "IrrMngt.MaxIrrSeason": 0, f"{step_state}.irr_cum": Sgn("+")} for m in (1, 2, 3, 5)]
+    chk.assume("A-19")
     irr_name = step_local(prog, "irr")
     for r in batch(prog, cfgs, want_locals=[irr_name]):
-        label = ", ".join(f"{k.split('.')[1]}={v}" for k, v in r.config.items())
+        label = ", ".join(f"{k.split('.')[1]}={v if not hasattr(v, 's') else '>=0'}" for k, v in r.config.items())
         chk.valuation(label)
         for l in r.locals[True]:
             v = l[irr_name]
